@@ -51,6 +51,104 @@ pub fn permute_file(file: &GFile, perm: &[usize]) -> GFile {
     GFile { items }
 }
 
+/// Hand-shaped families on top of the generated programs: every stanza matches the same node
+/// (`(module)`), so the order of the lazy statements is the order of the stanzas.
+///  * `merge`: several stanzas set the same attribute of one shared graph node (values from a
+///    palette with #null, equal and different values): every order must give the same outcome;
+///  * `escape`: a mutable variable is read in an eagerly evaluated position of a loop body before
+///    it is assigned a scoped variable. The checker rejects these today; whenever such a file is
+///    accepted, every order must still give the same outcome.
+fn family(rng: &mut Rng) -> (Vec<String>, &'static str) {
+    const VALUES: &[&str] = &["#null", "1", "2", "\"a\"", "#true", "[]", "[1]", "@m", "(source-text @m)", "#null", "1"];
+    if rng.chance(1, 2) {
+        let k = 2 + rng.below(2);
+        let on_edge = rng.chance(1, 3);
+        let mut st = vec!["(module) @m { node @m.zz_a node @m.zz_b }".to_string()];
+        let first = *rng.pick(VALUES);
+        for i in 0..k {
+            let v = if i > 0 && rng.chance(1, 4) { first } else if i == 0 { first } else { *rng.pick(VALUES) };
+            if on_edge {
+                st.push(format!("(module) @m {{ edge @m.zz_a -> @m.zz_b attr (@m.zz_a -> @m.zz_b) zz_k = {} }}", v));
+            } else {
+                st.push(format!("(module) @m {{ attr (@m.zz_a) zz_k = {} }}", v));
+            }
+        }
+        (st, if on_edge { "merge_edge_attribute" } else { "merge_node_attribute" })
+    } else {
+        let (init, scoped, use_, name): (&str, &str, &str, &'static str) = match rng.below(4) {
+            0 => ("\"a\"", "\"x\"", "if (eq zz_c \"x\") { attr (zz_n) hit = zz_i }", "escape_if_condition"),
+            1 => ("\"a\"", "\"x\"", "scan zz_c { \"x\" { attr (zz_n) hit = zz_i } \"a\" { } }", "escape_scan_source"),
+            2 => ("[]", "[7]", "for zz_j in zz_c { attr (zz_n) hit = zz_j }", "escape_for_source"),
+            _ => ("[]", "[7]", "if (not (is-empty [ zz_j for zz_j in zz_c ])) { attr (zz_n) hit = zz_i }", "escape_comprehension_source"),
+        };
+        let definer = format!("(module) @m {{ let @m.zz_v = {} }}", scoped);
+        let reader = format!("(module) @m {{ node zz_n var zz_c = {} for zz_i in [1, 2] {{ {} set zz_c = @m.zz_v }} }}", init, use_);
+        let mut st = vec![definer, reader];
+        if rng.chance(1, 2) {
+            st.push("(module) @m { node zz_other }".to_string());
+        }
+        (st, name)
+    }
+}
+
+fn run_family(rng: &mut Rng, out: &mut Out) {
+    let (stanzas, name) = family(rng);
+    let source = "pass\n";
+    let tree = parse_python(source);
+    let ti = TreeInfo::new(&tree);
+    let functions = stdlib();
+    let globals = std::collections::BTreeMap::new();
+    let mut reference: Option<(Real, String)> = None;
+    for perm in permutations(stanzas.len()) {
+        let text: String = perm.iter().map(|i| stanzas[*i].as_str()).collect::<Vec<_>>().join("\n");
+        let file = match exec::load(&text) {
+            Loaded::Ok(f) => f,
+            Loaded::Err(_) => {
+                out.eval();
+                out.feat(&format!("family:{}:rejected_at_load", name));
+                return;
+            }
+            Loaded::Panic(p) => {
+                out.violation(&format!("C08:load-panic:{}", p.site_file()), &format!("loading panicked at {}: {}", p.location, p.message), case_json(&text, source, &globals));
+                return;
+            }
+        };
+        let rep = exec::execute(&file, &tree, source, &ti, &globals, &functions, &ExecOpts::new(true));
+        out.eval();
+        if let Real::Panic(p) = &rep.real {
+            out.violation(&format!("C08:lazy-panic:{}", p.site_file()), &format!("lazy execution panicked at {}: {}", p.location, p.message), case_json(&text, source, &globals));
+            return;
+        }
+        match &reference {
+            None => reference = Some((rep.real, text)),
+            Some((r0, text0)) => {
+                let bad = match (r0, &rep.real) {
+                    (Real::Graph(a), Real::Graph(b)) => match isomorphic(a, b, 200_000) {
+                        Iso::Different(why) => Some(format!("graphs differ: {}", why)),
+                        _ => None,
+                    },
+                    (Real::Graph(_), Real::Error(e, _)) => Some(format!("identity order succeeds, permutation {:?} fails: {}", perm, crate::util::trunc(&e.display, 300))),
+                    (Real::Error(e, _), Real::Graph(_)) => Some(format!("identity order fails ({}), permutation {:?} succeeds", crate::util::trunc(&e.display, 300), perm)),
+                    _ => None,
+                };
+                if let Some(msg) = bad {
+                    let mut cj = case_json(text0, source, &globals);
+                    cj["permutation"] = json!(perm);
+                    cj["permuted_dsl"] = json!(text);
+                    cj["first"] = json!(r0.brief());
+                    cj["second"] = json!(rep.real.brief());
+                    out.violation("C08:order-dependence", &msg, cj);
+                    return;
+                }
+            }
+        }
+    }
+    if let Some((r, text0)) = &reference {
+        out.feat(&format!("family:{}:{}", name, if matches!(r, Real::Graph(_)) { "graph" } else { "error" }));
+        out.nontrivial(case_hash(text0, source, &globals));
+    }
+}
+
 impl Prop for C08 {
     fn id(&self) -> &'static str {
         "C08"
@@ -61,7 +159,13 @@ impl Prop for C08 {
             Tier::Thorough => 3000,
         }
     }
-    fn run_case(&self, _cfg: &RunCfg, _idx: usize, rng: &mut Rng, out: &mut Out) {
+    fn run_case(&self, _cfg: &RunCfg, idx: usize, rng: &mut Rng, out: &mut Out) {
+        if idx % 4 == 3 {
+            for _ in 0..6 {
+                run_family(rng, out);
+            }
+            return;
+        }
         let mut gcfg = GenCfg::order_insensitive();
         gcfg.forward_refs = true;
         gcfg.fault_pct = 10;
